@@ -549,6 +549,10 @@ func (rngdata *RangeNamespaceData) WriteTo(writer io.Writer) (int64, error) {
 // ReadFrom reads length-delimited protobuf representation of RangeNamespaceData
 // implementing io.ReaderFrom.
 func (rngdata *RangeNamespaceData) ReadFrom(reader io.Reader) (int64, error) {
+	// the receiver may be reused for several responses (e.g. retries against different peers),
+	// so nothing of a previous response, in particular its row proofs, may survive
+	*rngdata = RangeNamespaceData{}
+
 	nd := NamespaceData{}
 	n, err := nd.ReadFrom(reader)
 	if err != nil {
